@@ -23,6 +23,8 @@ structure Snap where
   cf : List Nat
   cc : String
   dup : Bool
+  cwrite : Bool := false -- a concurrent frame write was detected on the socket
+  hpanic : Bool := false -- some other unrequested panic in a goroutine of the connection
   miss : Bool := false   -- an operation ran under a context without the InitFunc's context / the init payload
   deriving Repr, Inhabited
 
@@ -64,7 +66,8 @@ def parseSnap (s : String) : Snap :=
     | _ => none
   let cf := ((kv s "cf").splitOn ",").filterMap fun t => t.toNat?
   { n := (kv s "n").toNat!, ops := ops, cf := cf, cc := kv s "cc", dup := (s.splitOn " ").contains "dupexec",
-    miss := (s.splitOn " ").contains "ctxmiss" }
+    miss := (s.splitOn " ").contains "ctxmiss",
+    cwrite := (s.splitOn " ").contains "cwrite", hpanic := (s.splitOn " ").contains "hpanic" }
 
 def parseItems (toks : List String) (snaps : List Snap) : List Item :=
   let rec go (toks : List String) (snaps : List Snap) (acc : List Item) : List Item :=
@@ -100,21 +103,31 @@ structure Ctx where
   cfg : Cfg
   frames : Array String
   tickWires : List String
+  /-- the script contains a step in which the client goes away without a settle before it is reached -/
+  clientLeaves : Bool := false
 
-/-- apply one model action; the frames it writes must be the next observed ones (unless the client is gone) -/
-def apply (cx : Ctx) (a : Action) (s : State) (fi : Nat) (gone : Bool) : Option (State × Nat) :=
+/-- apply one model action; the frames it writes must be the next observed ones (unless the client is gone).
+`drop`: a frame the server wrote when the client had already received everything it was ever going to see - the
+client is about to leave abruptly and what is still in flight is lost with the socket (TCP delivers a prefix).
+The search only lets that happen in a racing window: no settle point may be passed between such a frame and
+the client's departure. -/
+def apply (cx : Ctx) (a : Action) (s : State) (fi : Nat) (gone : Bool) (drop : Bool := false) :
+    Option (State × Nat × Bool) :=
   match fire cx.cfg a s with
   | none => none
   | some s' =>
     let new := s'.trace.drop s.trace.length
-    let rec chk (evs : List Ev) (fi : Nat) : Option Nat :=
+    let rec chk (evs : List Ev) (fi : Nat) (drop : Bool) : Option (Nat × Bool) :=
       match evs with
-      | [] => some fi
+      | [] => some (fi, drop)
       | .frame _ w id info :: rest =>
-        if gone then chk rest fi
-        else if cx.frames[fi]? == some (frameStr w id info) then chk rest (fi + 1) else none
-      | _ :: rest => chk rest fi
-    (chk new fi).map fun fi' => (s', fi')
+        if gone then chk rest fi drop
+        else if drop then chk rest fi true
+        else if cx.frames[fi]? == some (frameStr w id info) then chk rest (fi + 1) false
+        else if fi == cx.frames.size && cx.clientLeaves then chk rest fi true
+        else none
+      | _ :: rest => chk rest fi drop
+    (chk new fi drop).map fun (fi', d) => (s', fi', d)
 
 def internalActions (s : State) : List Action :=
   [Action.recv, .sec, .readErr, .watch] ++ s.ops.flatMap fun o => if o.done then [] else [Action.opStep o.inst, .opCancel o.inst]
@@ -130,7 +143,7 @@ def snapOK (o : Snap) (s : State) (fi : Nat) (gone : Bool) : Bool :=
   let cc := if gone then "gone" else match closeFrames s with
     | c :: _ => toString c
     | [] => "open"
-  !o.dup && !o.miss && (gone || o.n == fi) && mops == o.ops && closeFuncs s == o.cf && (o.cc == cc)
+  !o.dup && !o.miss && !o.cwrite && !o.hpanic && (gone || o.n == fi) && mops == o.ops && closeFuncs s == o.cf && (o.cc == cc)
 
 structure Key where
   pos : Nat
@@ -138,6 +151,7 @@ structure Key where
   gone : Bool
   bar : Bool
   clean : Bool
+  drop : Bool
   st : State
   deriving BEq, Hashable
 
@@ -150,47 +164,49 @@ structure Memo where
 /-- depth-first search.  `bar`: the previous script item asked for a settle, so the model must be
 stable before the next item; `clean`: the harness is winding the session down (it hands `end` to every
 operation that is still waiting). -/
-partial def search (cx : Ctx) (items : Array Item) (pos : Nat) (s : State) (fi : Nat) (gone bar clean : Bool) :
-    StateM Memo Bool := do
+partial def search (cx : Ctx) (items : Array Item) (pos : Nat) (s : State) (fi : Nat) (gone bar clean : Bool)
+    (drop : Bool := false) : StateM Memo Bool := do
   let m ← get
-  let key : Key := { pos, fi, gone, bar, clean, st := s }
+  let drop := drop && !gone
+  let key : Key := { pos, fi, gone, bar, clean, drop, st := s }
   if m.seen.contains key || m.fuel == 0 then return false
   set { m with seen := m.seen.insert key, fuel := m.fuel - 1,
                bestItem := max m.bestItem pos, bestFrames := max m.bestFrames fi }
   let isStable := stable cx s
-  -- (1) the next script item
+  -- (1) the next script item (a settle point cannot be passed while written frames are still unseen)
   let mut ok := false
-  if !bar || isStable then
+  if (!bar || isStable) && !(drop && bar) then
     if h : pos < items.size then
       match items[pos] with
       | .env a b =>
         let gone' := gone || (match a with | .clientSend .eof => true | _ => false)
-        match apply cx a s fi gone with
-        | some (s', fi') => ok ← search cx items (pos + 1) s' fi' gone' b clean
+        match apply cx a s fi gone drop with
+        | some (s', fi', d) => ok ← search cx items (pos + 1) s' fi' gone' b clean d
         | none => pure ()
       | .deliver tag c d b =>
-        if !d then ok ← search cx items (pos + 1) s fi gone b clean
+        if !d then ok ← search cx items (pos + 1) s fi gone b clean drop
         else
           match s.ops.find? (fun o => o.tag == tag && !o.done) with
           | some o =>
-            match apply cx (.deliver o.inst c) s fi gone with
-            | some (s', fi') => ok ← search cx items (pos + 1) s' fi' gone b clean
+            match apply cx (.deliver o.inst c) s fi gone drop with
+            | some (s', fi', d) => ok ← search cx items (pos + 1) s' fi' gone b clean d
             | none => pure ()
           | none => pure ()
       | .timeout b =>
         if cx.cfg.initTimeout && s.rpc == .awaitInit then
-          match apply cx .initTimeout s fi gone with
-          | some (s', fi') => ok ← search cx items (pos + 1) s' fi' gone b clean
+          match apply cx .initTimeout s fi gone drop with
+          | some (s', fi', d) => ok ← search cx items (pos + 1) s' fi' gone b clean d
           | none => pure ()
-        else ok ← search cx items (pos + 1) s fi gone b clean
+        else ok ← search cx items (pos + 1) s fi gone b clean drop
       | .snap o =>
-        if isStable && snapOK o s fi gone then ok ← search cx items (pos + 1) s fi gone true clean
+        if isStable && !drop && snapOK o s fi gone then ok ← search cx items (pos + 1) s fi gone true clean
       | .cleanup =>
-        match apply cx (.clientSend .eof) s fi gone with
-        | some (s', fi') => ok ← search cx items (pos + 1) s' fi' true false true
-        | none => pure ()
+        if !drop then
+          match apply cx (.clientSend .eof) s fi gone with
+          | some (s', fi', _) => ok ← search cx items (pos + 1) s' fi' true false true
+          | none => pure ()
     else
-      ok := isStable && (gone || fi == cx.frames.size)
+      ok := isStable && (gone || (fi == cx.frames.size && !drop))
   if ok then return true
   -- (2) an internal step of the model
   let mut acts := internalActions s
@@ -203,9 +219,9 @@ partial def search (cx : Ctx) (items : Array Item) (pos : Nat) (s : State) (fi :
     | some f => if cx.tickWires.any (fun w => f == frameStr w "" "-") then acts := acts ++ cx.cfg.ticks.map Action.tick
     | none => pure ()
   for a in acts do
-    match apply cx a s fi gone with
-    | some (s', fi') =>
-      if ← search cx items pos s' fi' gone bar clean then return true
+    match apply cx a s fi gone drop with
+    | some (s', fi', d) =>
+      if ← search cx items pos s' fi' gone bar clean d then return true
     | none => pure ()
   return false
 
@@ -233,6 +249,19 @@ def stopNotCancelled (cfg : Cfg) (items : List Item) : Option String :=
           else none
     | _ => none
 
+/-- "every operation a client starts receives its results … and is then terminated": a start may only be
+refused as a duplicate (connection closed with 4409, taking every operation with it) when an operation can be
+registered under its id at that moment - i.e. the script contains an earlier start of the same id that carried a
+valid subscription.  (`run` is the only place that closes with 4409, see `close_codes_tie`.) -/
+def refusedWithoutDuplicate (cfg : Cfg) (items : List Item) (snaps : List Snap) : Option String :=
+  if !(snaps.any fun sn => sn.cf.contains 4409 || sn.cc == "4409") then none else
+  let starts := items.zipIdx.filterMap fun (it, i) => match it with
+    | .env (.clientSend (.msg w id pl _)) _ =>
+      if cfg.proto.toMessage w == some .start && cfg.proto.all.contains w then some (i, id, pl == Payload.sub) else none
+    | _ => none
+  if starts.any (fun (i, id, sub) => sub && starts.any (fun (j, id', _) => id' == id && i < j)) then none
+  else some "violates:start-refused-as-duplicate-but-no-operation-was-registered-under-its-id"
+
 /-- the property, evaluated directly on what the implementation showed for this script -/
 def obsSpec (cfg : Cfg) (items : List Item) (frames : List String) (snaps : List Snap) (final : Option Snap) : String :=
   let parsed := frames.map fun f => match f.splitOn ":" with
@@ -244,6 +273,8 @@ def obsSpec (cfg : Cfg) (items : List Item) (frames : List String) (snaps : List
   let ackW := (cfg.proto.fromMessage .connectionAck).join.getD "?"
   let opFrame := fun (w : String) => w == dataW || w == errW || w == complW
   -- nothing of an operation before the ack
+  if (snaps ++ final.toList).any (fun sn => sn.cwrite) then "violates:frames-written-concurrently" else
+  if (snaps ++ final.toList).any (fun sn => sn.hpanic) then "violates:panic-in-connection-goroutine" else
   let beforeAck := parsed.takeWhile (fun f => f.1 != ackW)
   if beforeAck.any (fun f => opFrame f.1) then "violates:operation-frame-before-ack" else
   if snaps.any (fun sn => !sn.ops.isEmpty) && !(parsed.any (fun f => f.1 == ackW)) then "violates:operation-executed-before-ack" else
@@ -275,7 +306,7 @@ def obsSpec (cfg : Cfg) (items : List Item) (frames : List String) (snaps : List
     else if snaps.any (fun sn => sn.dup) then "violates:operation-executed-twice"
     else if snaps.any (fun sn => sn.miss) then "violates:operation-context-without-init-context-or-payload"
     else
-    match stopNotCancelled cfg items with
+    match (stopNotCancelled cfg items).orElse (fun _ => refusedWithoutDuplicate cfg items (snaps ++ final.toList)) with
     | some v => v
     | none =>
     let tagId0 := items.filterMap fun
@@ -333,7 +364,10 @@ def step (line : String) : String :=
       let items := parseItems steps (qs ++ tail)
       -- parseItems consumes the `?` snapshots in order and leaves [mid, final] for the end
       let tickWires := cfg.ticks.filterMap fun t => (cfg.proto.fromMessage t).join
-      let cx : Ctx := { cfg, frames := frames.toArray, tickWires }
+      let clientLeaves := items.any fun
+        | .env (.clientSend .eof) _ => true
+        | _ => false
+      let cx : Ctx := { cfg, frames := frames.toArray, tickWires, clientLeaves }
       let (ok, memo) := (search cx items.toArray 0 State.initial 0 false false false).run {}
       let spec := obsSpec cfg items frames (qs ++ tail.take 1) tail.getLast?
       let verdict := if ok then "member" else
